@@ -1,13 +1,11 @@
-/- Chunk 15 of the exhaustive C04 check: guard assignments 480 ≤ m < 512, all four cursor-flag
-   combinations, evaluated by the kernel (`decide +kernel`) on the lists regenerated from vaxis.go. -/
-import VaxisModel.Lemmas.C04Check
+/- Chunk 15 of the exhaustive C04 check: guard assignments 480 ≤ m < 512, all four visibility-flag
+   combinations of the two cursor records, evaluated by the kernel (`decide +kernel`) on the *symbolic*
+   lifecycle (run-time values are holes) interpreted from the lists regenerated from vaxis.go. -/
+import VaxisModel.Lemmas.C04SymCheck
 
-namespace VaxisModel.Lemmas.C04Check
-
-set_option maxRecDepth 100000 in
-theorem balanced_chunk15 : chunkB balancedB 480 512 = true := by decide +kernel
+namespace VaxisModel.Lemmas.C04SymCheck
 
 set_option maxRecDepth 100000 in
-theorem resume_chunk15 : chunkB resumeB 480 512 = true := by decide +kernel
+theorem sym_chunk15 : chunkB 480 512 = true := by decide +kernel
 
-end VaxisModel.Lemmas.C04Check
+end VaxisModel.Lemmas.C04SymCheck
